@@ -465,6 +465,9 @@ type CountingChain struct {
 
 func chainHash(n uint64) common.Hash { return crypto.Keccak256Hash([]byte(fmt.Sprintf("hdr-%d", n))) }
 
+// Header returns block n's header.
+func (c *CountingChain) Header(n uint64) *types.Header { return c.header(n) }
+
 func (c *CountingChain) header(n uint64) *types.Header {
 	h := &types.Header{Number: new(big.Int).SetUint64(n), Difficulty: big.NewInt(1), Time: 1_700_000_000}
 	if n > 0 {
